@@ -485,7 +485,7 @@ def big_text(rng, kind, B):
         filler = filler[:max(0, fill)].rstrip("\r\n")
     else:
         filler = " " * max(0, fill)                                          # a blank line to skip
-    text = head + filler + nl + line + rng.choice(["", " ", "\r"]) + tail
+    text = head + filler + nl + line + rng.choice(["", " ", "  "]) + tail        # (a lone CR would become part of the last field)
     if rng.random() < 0.3:
         text += "#" + "z" * (3 * B)                                          # and a line of three buffers at the end, unterminated
     return text.replace("\n", nl) if nl == "\r\n" and rng.random() < 0.5 else text, want
